@@ -113,6 +113,13 @@ add('C18', 'exploration', 'runtime monitoring on a virtual-time loop: start/stop
     'from_iterable exact and waiting for downstream.',
     'Virtual clock; real temporary files for the file sources.', 'DESIGN.md#C18')
 
+add('C17', 'exploration', 'runtime monitoring on a virtual-time loop with real files: emitted records vs written text (exactly-once, order, tail held back)',
+    'Texts over an alphabet containing the delimiter characters and multi-byte characters are appended to a real temporary '
+    'file in random byte chunks with 0/1/2 polls between chunks; the concatenation and the boundaries of the emitted '
+    'records are compared with the written text up to its last delimiter (from_end on/off); for filenames every created '
+    'path must be emitted exactly once and sorted within one poll cycle.',
+    'Virtual clock; "\\r" only with a caller-supplied file object opened with newline="".', 'DESIGN.md#C17')
+
 
 def main():
     props = [json.loads(l) for l in open(os.path.join(HERE, 'properties.jsonl'))]
